@@ -1040,7 +1040,7 @@ Proof.
   - apply Nat.eqb_eq in E1. cbn [WithoutPost]. rewrite (flat_bitmap bm es Hwf). split; [exact Hmem|].
     rewrite <- R1, <- (flat_bitmap _ _ R2) in P.
     assert (E0 : removeAt (N.to_nat (index bm (2 ^ c))) es = []) by (apply length_zero_iff_nil; lia).
-    rewrite E0 in P. cbn in P. apply Permutation_nil in P. exact P.
+    rewrite E0 in P. cbn [flat flat_map] in P. apply Permutation_nil in P. exact P.
   - apply Nat.eqb_neq in E1. cbn [WithoutPost]. rewrite (flat_bitmap bm es Hwf).
     assert (HS' : SlotsOk (Inv d') s p (replaceAt (N.to_nat c) None (bslots bm es)))
       by (apply SlotsOk_replace; [exact HS|exact Hc0|discriminate]).
@@ -1049,7 +1049,7 @@ Proof.
     + rewrite (flat_bitmap _ _ R2), R1. exact P.
     + rewrite (flat_bitmap _ _ R2), R1. apply (slots_nonempty _ _ _ _ HS').
       rewrite <- R1, somes_bslots by exact R2.
-      intros E0. rewrite E0 in R2. cbn in R2. lia.
+      intros E0. rewrite E0 in R2. cbn [length] in R2. lia.
 Qed.
 
 Lemma bitmapWithout_spec d' : WithoutIH d' -> forall p bm es k,
@@ -1092,6 +1092,331 @@ Proof.
            pose proof (sflat_replace (bslots bm es) (N.to_nat c) (Some (Child n1))) as P.
            rewrite E0 in P. apply Permutation_nil in P. apply app_eq_nil in P as [P _]. exact (A5 P).
   - cbn [WithoutPost]. rewrite (flat_bitmap bm es Hwf), (lift_mem k _ _ _ Hget Hoth). reflexivity.
+Qed.
+
+Lemma removeAt_length {A} i (l : list A) : i < length l -> length (removeAt i l) = length l - 1.
+Proof. intros H. unfold removeAt. rewrite app_length, firstn_length, skipn_length. lia. Qed.
+
+Lemma without_spec d : WithoutIH d.
+Proof.
+  induction d as [|d' IH]; intros p n k HI Hk; [destruct HI|].
+  destruct n as [bm es|nc cs|h kvs].
+  - cbn [without]. apply bitmapWithout_spec; assumption.
+  - pose proof (inv_level _ _ _ HI) as (L1 & L2 & L3).
+    destruct (key_child d' p k L1 L2 L3 Hk) as (Hs & Hk' & Hc0 & Hp').
+    pose proof HI as HI0.
+    set (s := shift_of (S d')) in *. set (c := chunk s (hash k)) in *.
+    cbn [Inv] in HI. fold s in HI. destruct HI as (_ & Hp & Hs25 & Hnc & Hnc8 & HS).
+    pose proof (slot_other d' s p _ k _ Hs Hp HS Hk eq_refl) as Hoth. fold c in Hoth.
+    assert (Hl : length cs = 32)
+      by (destruct HS as [Hl _]; unfold aslots in Hl; rewrite map_length in Hl; exact Hl).
+    destruct (slots_get cs (N.to_nat c) Hl Hc0) as [o Ho].
+    assert (Hget : nth_error (aslots cs) (N.to_nat c) = Some (option_map Child o))
+      by (rewrite aslots_nth, Ho; reflexivity).
+    cbn [without]. fold c. rewrite Ho.
+    destruct o as [child|].
+    2:{ cbn [WithoutPost]. rewrite flat_array, (lift_mem k _ _ _ Hget Hoth). reflexivity. }
+    change chunkBits with 5%N. rewrite <- Hs. cbn [option_map] in Hget.
+    destruct (proj2 HS _ _ Hget) as [HIc Hnec].
+    pose proof (IH _ _ k HIc Hk') as A.
+    pose proof (somes_replace_length cs (N.to_nat c) _ None Ho) as SLn. cbn in SLn.
+    destruct (without K V eqk d' child (shift_of d') (hash k) k) as [| | |n1 del]; cbn [WithoutPost] in A.
+    + destruct A.
+    + cbn [WithoutPost]. rewrite flat_array, (lift_mem k _ _ _ Hget Hoth). exact A.
+    + destruct A as [A1 A2]. change (Z.of_N (N.div nodeCap 4)) with 8%Z.
+      assert (P : Permutation (sflat (replaceAt (N.to_nat c) None (aslots cs))) (rem k (sflat (aslots cs)))).
+      { apply (lift_without k _ _ _ None Hget Hoth). change (Permutation [] (rem k (flat child))).
+        rewrite A2. constructor. }
+      assert (Hmem : mem k (sflat (aslots cs)) = true) by (rewrite (lift_mem k _ _ _ Hget Hoth); exact A1).
+      assert (HS' : SlotsOk (Inv d') s p (replaceAt (N.to_nat c) None (aslots cs)))
+        by (apply SlotsOk_replace; [exact HS|exact Hc0|discriminate]).
+      destruct (nc <=? 8)%Z eqn:E8.
+      * destruct (pack_spec d' p nc cs (N.to_nat c) child HI0 Hc0 Ho) as (bm & es & E & Hbm & Hwf & Hsl & Hlen).
+        rewrite N2Nat.id in E. rewrite E. cbn [WithoutPost]. rewrite flat_array.
+        split; [reflexivity|]. split; [exact Hmem|]. split; [|split].
+        -- eapply inv_bitmap_intro; try eassumption. fold s. lia.
+        -- rewrite (flat_bitmap _ _ Hwf), Hsl. exact P.
+        -- rewrite (flat_bitmap _ _ Hwf), Hsl. apply (slots_nonempty _ _ _ _ HS').
+           rewrite <- Hsl, somes_bslots by exact Hwf. intros E0. rewrite E0 in Hlen. cbn [length] in Hlen. lia.
+      * apply Z.leb_gt in E8. cbn [WithoutPost]. rewrite !flat_array, aslots_replace. cbn [option_map].
+        split; [reflexivity|]. split; [exact Hmem|]. split; [|split; [exact P|]].
+        -- cbn [Inv]. fold s. split; [exact L2|]. split; [exact Hp|]. split; [exact Hs25|].
+           split; [lia|]. split; [lia|]. rewrite aslots_replace. exact HS'.
+        -- apply (slots_nonempty _ _ _ _ HS'). intros E0.
+           pose proof (somes_aslots (replaceAt (N.to_nat c) None cs)) as SA.
+           rewrite aslots_replace in SA. cbn [option_map] in SA. rewrite E0 in SA. cbn [length] in SA. lia.
+    + destruct A as (A1 & A2 & A3 & A4 & A5).
+      pose proof (somes_replace_length cs (N.to_nat c) _ (Some n1) Ho) as SL. cbn in SL.
+      cbn [WithoutPost]. rewrite !flat_array, aslots_replace. cbn [option_map].
+      split; [reflexivity|]. split; [rewrite (lift_mem k _ _ _ Hget Hoth); exact A2|]. split; [|split].
+      * cbn [Inv]. fold s. split; [exact L2|]. split; [exact Hp|]. split; [exact Hs25|].
+        split; [lia|]. split; [lia|]. rewrite aslots_replace. cbn [option_map].
+        apply SlotsOk_replace; [exact HS|exact Hc0|].
+        intros e0 E0. inversion E0; subst. cbn [EntryOk]. auto.
+      * apply (lift_without k _ _ _ _ Hget Hoth). exact A4.
+      * intros E0. pose proof (sflat_replace (aslots cs) (N.to_nat c) (Some (Child n1))) as P.
+        rewrite E0 in P. apply Permutation_nil in P. apply app_eq_nil in P as [P _]. exact (A5 P).
+  - pose proof (inv_level _ _ _ HI) as (L1 & L2 & L3).
+    cbn [Inv] in HI. destruct HI as (_ & Hp & Hh & Hb & Hkeys & ND & Hne).
+    cbn [without]. destruct (findIndex K V eqk k kvs) as [i|] eqn:Ef.
+    + destruct (collision_split k kvs i ND Ef) as (k' & v' & H1 & H2 & H3 & H4 & H5).
+      pose proof (nth_error_Some_lt _ _ _ H1) as Hi.
+      pose proof (removeAt_length i kvs Hi) as RL.
+      destruct (length kvs =? 1) eqn:E1.
+      * apply Nat.eqb_eq in E1. cbn [WithoutPost flat]. split; [exact H4|].
+        rewrite H3. apply length_zero_iff_nil. lia.
+      * apply Nat.eqb_neq in E1. cbn [WithoutPost flat]. split; [reflexivity|]. split; [exact H4|].
+        split; [|split; [rewrite H3; reflexivity|]].
+        -- apply inv_collision_intro; try assumption.
+           ++ intros k1 v1 Hin. apply in_removeAt in Hin. eauto.
+           ++ rewrite <- H3. apply NoDupK_rem. exact ND.
+           ++ intros E0. rewrite E0 in RL. cbn [length] in RL. lia.
+        -- intros E0. rewrite E0 in RL. cbn [length] in RL. lia.
+    + apply findIndex_none in Ef. cbn [WithoutPost flat]. exact Ef.
+Qed.
+
+(* ------------------------------------------------------------------ *)
+(* the map: nil-key slot, count, iteration *)
+Notation eqok := (eqo eqk).
+Notation omem := (s_mem eqok).
+Notation orem := (s_remove eqok).
+Notation olook := (s_lookup eqok).
+Notation ONoDupK := (C07_lists.NoDupK eqok).
+Notation lift := (fun kv : K * V => (Some (fst kv), snd kv)).
+
+Lemma eqo_refl a : eqok a a = true.
+Proof. destruct a; cbn; auto. Qed.
+Lemma eqo_sym a b : eqok a b = eqok b a.
+Proof. destruct a, b; cbn; auto. Qed.
+Lemma eqo_trans a b c : eqok a b = true -> eqok b c = true -> eqok a c = true.
+Proof. destruct a, b, c; cbn; try discriminate; eauto. Qed.
+
+Lemma olook_lift k l : olook (Some k) (map lift l) = look k l.
+Proof. induction l as [|[k0 v0] l IH]; cbn; [reflexivity|]. rewrite IH. reflexivity. Qed.
+Lemma olook_lift_none l : olook None (map lift l) = None.
+Proof. induction l as [|[k0 v0] l IH]; cbn; auto. Qed.
+Lemma omem_lift k l : omem (Some k) (map lift l) = mem k l.
+Proof. induction l as [|[k0 v0] l IH]; simpl; [reflexivity|]. f_equal. exact IH. Qed.
+Lemma omem_lift_none l : omem None (map lift l) = false.
+Proof. induction l as [|[k0 v0] l IH]; cbn; auto. Qed.
+Lemma orem_lift k l : orem (Some k) (map lift l) = map lift (rem k l).
+Proof.
+  induction l as [|[k0 v0] l IH]; simpl; [reflexivity|].
+  destruct (eqk k k0); simpl; [exact IH|f_equal; exact IH].
+Qed.
+Lemma orem_lift_none l : orem None (map lift l) = map lift l.
+Proof. induction l as [|[k0 v0] l IH]; simpl; [reflexivity|]. f_equal. exact IH. Qed.
+Lemma ONoDupK_lift l : NoDupK l -> ONoDupK (map lift l).
+Proof.
+  induction l as [|[k0 v0] l IH]; cbn; [auto|]. intros [H1 H2]. split; [|auto].
+  rewrite omem_lift. exact H1.
+Qed.
+
+Definition nilpart (m : hmap K V) : list (option K * V) :=
+  match nilV m with Some v => [(None, v)] | None => [] end.
+
+Lemma Iter_eq m : Iter m = nilpart m ++ map lift (flat (root m)).
+Proof. reflexivity. Qed.
+
+Definition MapInv (m : hmap K V) : Prop :=
+  Inv 8 0 (root m) /\ count m = Z.of_nat (length (Iter m)).
+
+Lemma inv_empty_root : Inv 8 0 emptyBitmap.
+Proof. apply inv_empty_bitmap; [lia|lia|change (shift_of 8) with 0%N; lia|reflexivity]. Qed.
+
+Lemma MapInv_empty : MapInv empty.
+Proof. split; [exact inv_empty_root|reflexivity]. Qed.
+
+Lemma Iter_nodup m : MapInv m -> ONoDupK (Iter m).
+Proof.
+  intros [HI _]. rewrite Iter_eq. pose proof (ONoDupK_lift _ (inv_nodup _ _ _ HI)) as ND.
+  unfold nilpart. destruct (nilV m); cbn; [|exact ND]. split; [apply omem_lift_none|exact ND].
+Qed.
+
+Lemma key_root k : (hash k mod 2 ^ shift_of 8 = 0)%N.
+Proof. change (shift_of 8) with 0%N. apply N.mod_1_r. Qed.
+
+Lemma Index_spec m ko : MapInv m ->
+  Index K V eqk hash m ko = FRes (olook ko (Iter m)).
+Proof.
+  intros [HI _]. rewrite Iter_eq. unfold nilpart. destruct ko as [k|]; cbn [Index].
+  - change fuel0 with 8. change 0%N with (shift_of 8) at 1.
+    rewrite (find_spec 8 0%N (root m) k HI (key_root k)).
+    destruct (nilV m); cbn; rewrite olook_lift; reflexivity.
+  - destruct (nilV m); cbn; [reflexivity|]. rewrite olook_lift_none. reflexivity.
+Qed.
+
+Lemma Assoc_spec m ko v : MapInv m ->
+  exists m', Assoc K V eqk hash m ko v = Some m' /\ MapInv m'
+    /\ Permutation (Iter m') ((ko, v) :: orem ko (Iter m)).
+Proof.
+  intros [HI Hc]. destruct ko as [k|]; cbn [Assoc].
+  - change fuel0 with 8. change 0%N with (shift_of 8) at 1.
+    pose proof (assoc_spec 8 0%N (root m) k v HI (key_root k)) as A.
+    destruct (assoc K V eqk hash 8 (root m) (shift_of 8) (hash k) k v) as [|r added]; [destruct A|].
+    destruct A as (I1 & P1 & A1). eexists. split; [reflexivity|].
+    pose proof (rem_length K V eqk eqk_sym eqk_trans k _ (inv_nodup _ _ _ HI)) as RL.
+    pose proof (Permutation_length P1) as PL. cbn [length] in PL.
+    assert (Hn : nilpart {| count := if added then (count m + 1)%Z else count m; root := r; nilV := nilV m |}
+                 = nilpart m) by reflexivity.
+    split; [split; [exact I1|]|].
+    + rewrite Iter_eq, Hn. cbn [root]. rewrite Iter_eq in Hc. rewrite app_length, map_length in *.
+      rewrite A1. destruct (mem k (flat (root m))); cbn [negb]; lia.
+    + rewrite !Iter_eq, Hn. cbn [root]. unfold s_remove. rewrite filter_app. fold (orem (Some k) (nilpart m)).
+      fold (orem (Some k) (map lift (flat (root m)))). rewrite orem_lift.
+      replace (orem (Some k) (nilpart m)) with (nilpart m)
+        by (unfold nilpart; destruct (nilV m); reflexivity).
+      rewrite (Permutation_map lift P1). cbn [map fst snd]. symmetry. apply Permutation_middle.
+  - eexists. split; [reflexivity|]. rewrite Iter_eq in Hc.
+    split; [split; [exact HI|]|].
+    + rewrite Iter_eq. unfold nilpart in *. cbn [nilV root count].
+      destruct (nilV m); cbn [app length] in *; lia.
+    + rewrite !Iter_eq. unfold nilpart at 1. cbn [nilV root].
+      unfold s_remove. rewrite filter_app. fold (orem None (nilpart m)).
+      fold (orem None (map lift (flat (root m)))). rewrite orem_lift_none.
+      replace (orem None (nilpart m)) with (@nil (option K * V))
+        by (unfold nilpart; destruct (nilV m); reflexivity).
+      reflexivity.
+Qed.
+
+Lemma Dissoc_spec m ko : MapInv m ->
+  exists m', Dissoc K V eqk hash m ko = Some m' /\ MapInv m'
+    /\ Permutation (Iter m') (orem ko (Iter m)).
+Proof.
+  intros [HI Hc]. destruct ko as [k|]; cbn [Dissoc].
+  - change fuel0 with 8. change 0%N with (shift_of 8) at 1.
+    pose proof (without_spec 8 0%N (root m) k HI (key_root k)) as A.
+    pose proof (rem_length K V eqk eqk_sym eqk_trans k _ (inv_nodup _ _ _ HI)) as RL.
+    assert (Hrem : orem (Some k) (Iter m) = nilpart m ++ map lift (rem k (flat (root m)))).
+    { rewrite Iter_eq. unfold s_remove. rewrite filter_app. fold (orem (Some k) (nilpart m)).
+      fold (orem (Some k) (map lift (flat (root m)))). rewrite orem_lift.
+      f_equal. unfold nilpart; destruct (nilV m); reflexivity. }
+    rewrite Hrem. rewrite Iter_eq, app_length, map_length in Hc.
+    destruct (without K V eqk 8 (root m) (shift_of 8) (hash k) k) as [| | |r del]; cbn [WithoutPost] in A.
+    + destruct A.
+    + eexists. split; [reflexivity|]. rewrite (rem_id K V eqk k _ A).
+      split; [split; [exact HI|]|reflexivity].
+      rewrite Iter_eq, app_length, map_length. exact Hc.
+    + destruct A as [A1 A2]. eexists. split; [reflexivity|]. rewrite A2 in *. rewrite A1 in RL.
+      split; [split; [exact inv_empty_root|]|].
+      * rewrite Iter_eq. cbn [root count nilV]. unfold nilpart in *. cbn [nilV flat emptyBitmap flat_map map].
+        rewrite app_length. cbn [length] in *. lia.
+      * rewrite Iter_eq. reflexivity.
+    + destruct A as (A1 & A2 & A3 & A4 & _). subst del. eexists. split; [reflexivity|].
+      pose proof (Permutation_length A4) as PL. rewrite A2 in RL.
+      split; [split; [exact A3|]|].
+      * rewrite Iter_eq. cbn [root count nilV]. unfold nilpart in *. cbn [nilV].
+        rewrite app_length, map_length. lia.
+      * rewrite Iter_eq. cbn [root]. apply Permutation_app_head. apply Permutation_map. exact A4.
+  - eexists. split; [reflexivity|]. rewrite Iter_eq in Hc.
+    assert (Hrem : orem None (Iter m) = map lift (flat (root m))).
+    { rewrite Iter_eq. unfold s_remove. rewrite filter_app. fold (orem None (nilpart m)).
+      fold (orem None (map lift (flat (root m)))). rewrite orem_lift_none.
+      unfold nilpart; destruct (nilV m); reflexivity. }
+    rewrite Hrem. split; [split; [exact HI|]|reflexivity].
+    rewrite Iter_eq. unfold nilpart in *. cbn [nilV root count].
+    destruct (nilV m); cbn [app length] in *; lia.
+Qed.
+
+(* ---- histories over a version store ---- *)
+Definition Rel (m : hmap K V) (s : smap (option K) V) : Prop :=
+  MapInv m /\ Permutation (Iter m) s.
+
+Lemma Rel_step ms ss o : Forall2 Rel ms ss ->
+  exists ms', m_step eqk hash ms o = Some ms' /\ Forall2 Rel ms' (s_step eqk ss o).
+Proof.
+  intros F.
+  assert (Hnth : forall i, match nth_error ms i, nth_error ss i with
+                           | Some m, Some s => Rel m s | None, None => True | _, _ => False end).
+  { induction F; intros [|i]; cbn; auto. }
+  destruct o as [ver ko v|ver ko]; cbn [m_step s_step]; specialize (Hnth ver);
+    destruct (nth_error ms ver) as [m|], (nth_error ss ver) as [s|]; try contradiction;
+    try (exists ms; split; [reflexivity|exact F]); destruct Hnth as [HM HP].
+  - destruct (Assoc_spec m ko v HM) as (m' & E & HM' & P'). rewrite E. cbn [option_map].
+    eexists. split; [reflexivity|]. apply Forall2_app; [exact F|]. constructor; [|constructor].
+    split; [exact HM'|]. rewrite P'. unfold s_assoc. apply perm_skip.
+    apply (rem_perm (option K) V eqok). exact HP.
+  - destruct (Dissoc_spec m ko HM) as (m' & E & HM' & P'). rewrite E. cbn [option_map].
+    eexists. split; [reflexivity|]. apply Forall2_app; [exact F|]. constructor; [|constructor].
+    split; [exact HM'|]. rewrite P'. unfold s_dissoc. apply (rem_perm (option K) V eqok). exact HP.
+Qed.
+
+Lemma Rel_run ops : forall ms ss, Forall2 Rel ms ss ->
+  exists ms', m_run eqk hash ms ops = Some ms' /\ Forall2 Rel ms' (s_run eqk ss ops).
+Proof.
+  induction ops as [|o ops IH]; intros ms ss F; cbn [m_run s_run fold_left].
+  - exists ms. auto.
+  - destruct (Rel_step ms ss o F) as (ms1 & E & F1). rewrite E. apply IH. exact F1.
+Qed.
+
+(* what a related pair (map, reference dictionary) shows *)
+Definition VSpec (s : smap (option K) V) (m : hmap K V) : Prop :=
+  Len m = Z.of_nat (length s)
+  /\ (forall ko, Index K V eqk hash m ko = FRes (olook ko s))
+  /\ Permutation (Iter m) s
+  /\ ONoDupK (Iter m).
+
+Lemma Rel_VSpec m s : Rel m s -> VSpec s m.
+Proof.
+  intros [HM HP]. pose proof (Iter_nodup m HM) as ND. split; [|split; [|split]].
+  - destruct HM as [_ Hc]. unfold Len. rewrite Hc, (Permutation_length HP). reflexivity.
+  - intros ko. rewrite (Index_spec m ko HM). f_equal.
+    apply (look_perm (option K) V eqok eqo_sym eqo_trans ko _ _ ND HP).
+  - exact HP.
+  - exact ND.
+Qed.
+
+Lemma history_refines ops :
+  exists ms, m_run eqk hash [empty] ops = Some ms
+    /\ Forall2 (fun m s => VSpec s m) ms (s_run eqk [[]] ops).
+Proof.
+  destruct (Rel_run ops [empty] [[]]) as (ms & E & F).
+  - constructor; [|constructor]. split; [exact MapInv_empty|reflexivity].
+  - exists ms. split; [exact E|]. induction F; constructor; auto using Rel_VSpec.
+Qed.
+
+Lemma find_assoc_thm m ko v ko' : MapInv m ->
+  exists m', Assoc K V eqk hash m ko v = Some m' /\ MapInv m' /\
+    Index K V eqk hash m' ko' = if eqok ko' ko then FRes (Some v) else Index K V eqk hash m ko'.
+Proof.
+  intros HM. destruct (Assoc_spec m ko v HM) as (m' & E & HM' & P). exists m'. split; [exact E|].
+  split; [exact HM'|]. rewrite (Index_spec m' ko' HM'), (Index_spec m ko' HM).
+  rewrite (look_perm (option K) V eqok eqo_sym eqo_trans ko' _ _ (Iter_nodup m' HM') P). cbn [s_lookup].
+  destruct (eqok ko' ko) eqn:E1; [reflexivity|]. f_equal.
+  apply (look_rem_other (option K) V eqok eqo_sym eqo_trans). rewrite eqo_sym. exact E1.
+Qed.
+
+Lemma find_without_thm m ko ko' : MapInv m ->
+  exists m', Dissoc K V eqk hash m ko = Some m' /\ MapInv m' /\
+    Index K V eqk hash m' ko' = if eqok ko' ko then FRes None else Index K V eqk hash m ko'.
+Proof.
+  intros HM. destruct (Dissoc_spec m ko HM) as (m' & E & HM' & P). exists m'. split; [exact E|].
+  split; [exact HM'|]. rewrite (Index_spec m' ko' HM'), (Index_spec m ko' HM).
+  rewrite (look_perm (option K) V eqok eqo_sym eqo_trans ko' _ _ (Iter_nodup m' HM') P).
+  destruct (eqok ko' ko) eqn:E1.
+  - f_equal. rewrite <- (rem_eqk (option K) V eqok eqo_sym eqo_trans ko' ko _ E1).
+    apply (look_rem_same (option K) V eqok).
+  - f_equal. apply (look_rem_other (option K) V eqok eqo_sym eqo_trans). rewrite eqo_sym. exact E1.
+Qed.
+
+Lemma iter_find m : MapInv m -> forall ko, Index K V eqk hash m ko = FRes (olook ko (Iter m)).
+Proof. intros HM ko. apply Index_spec. exact HM. Qed.
+
+(* earlier versions stay what they were: the store only grows at the end *)
+Lemma m_run_prefix ops : forall ms ms', m_run eqk hash ms ops = Some ms' ->
+  exists tl, ms' = ms ++ tl.
+Proof.
+  induction ops as [|o ops IH]; intros ms ms' H; cbn [m_run] in H.
+  - inversion H. exists []. rewrite app_nil_r. reflexivity.
+  - destruct (m_step eqk hash ms o) as [ms1|] eqn:E; [|discriminate].
+    destruct (IH _ _ H) as [tl Htl].
+    assert (exists t1, ms1 = ms ++ t1) as [t1 Ht1].
+    { destruct o as [ver ko v|ver ko]; cbn [m_step] in E; destruct (nth_error ms ver).
+      - destruct (Assoc K V eqk hash h ko v); cbn in E; inversion E. eauto.
+      - inversion E. exists []. rewrite app_nil_r. reflexivity.
+      - destruct (Dissoc K V eqk hash h ko); cbn in E; inversion E. eauto.
+      - inversion E. exists []. rewrite app_nil_r. reflexivity. }
+    exists (t1 ++ tl). rewrite Htl, Ht1, app_assoc. reflexivity.
 Qed.
 
 End Node.
